@@ -203,6 +203,20 @@ func checkC05(c *Ctx, r *Report) {
 			})
 			r.Check("C05-alphabet", "fbb.parseProposalAnswer", "offset answers store the requested offset", c.pos(fn.Pos()), n > 0,
 				"the parser stores Proposal.offset", "no store to Proposal.offset: offset requests (!offset / Aoffset) are not honoured")
+			// the digits of an offset end where the next answer begins: the cut position must come from a
+			// scan forward from the answer character, never from a search from the end of the line
+			eachInstr(fn, func(_ *ssa.BasicBlock, _ int, instr ssa.Instruction) {
+				call, ok := instr.(*ssa.Call)
+				if !ok || callName(&call.Call) != "strconv.Atoi" {
+					return
+				}
+				fromEnd := dependsOn(call.Call.Args[0], func(x ssa.Value) bool {
+					cc, ok := x.(*ssa.Call)
+					return ok && strings.HasPrefix(callName(&cc.Call), "strings.Last")
+				})
+				r.Check("C05-alphabet", "fbb.parseProposalAnswer", "offset digits end at the next answer", c.pos(call.Pos()), !fromEnd,
+					"the offset is cut by scanning forward over the digits that follow the answer character", "the end of the offset is found by searching from the END of the answer line: with a later offset answer in the same line (\"FS !0!0\", \"FS !100+!50\") the rest of the line is swallowed and the remaining proposals stay unanswered")
+			})
 		}
 	}
 	// every value stored into Proposal.answer is an answer constant or a handler result
@@ -483,6 +497,7 @@ func checkC05(c *Ctx, r *Report) {
 	alignRule(c, r, "C05-align")
 	turnRule(c, r, "C05-turn")
 	hdrCheckRule(c, r, "C05-hdrcheck")
+	fieldOrderRule(c, r, "C05-fieldorder")
 
 	// ---- C05-sid
 	r.Rule("C05-sid", 1, "handshake requires B2")
@@ -955,5 +970,123 @@ func hdrCheckRule(c *Ctx, r *Report, rule string) {
 	})
 	if !found {
 		r.Add(rule, where, "header length comparison", c.pos(fn.Pos())).Bad("no comparison of the SOH length byte with measured lengths found (unresolved)")
+	}
+}
+
+// fieldOrderRule: the proposal line carries type, MID, size, compressed size in that order on both
+// sides, and the parser keeps the MID exactly as it came (the identifier the two mailboxes and the
+// traffic statistics are keyed on).
+func fieldOrderRule(c *Ctx, r *Report, rule string) {
+	r.Rule(rule, 5, "proposal fields: same order in writer and parser, MID kept verbatim")
+	want := map[string]int64{".msgType": 0, ".mid": 1, ".size": 2, ".compressedSize": 3}
+	// ---- parser
+	if fn := c.Func("fbb", "parseB2Proposal"); fn == nil {
+		r.Fail(rule, "anchor parseB2Proposal not found")
+	} else {
+		where := fnName(fn)
+		eachInstr(fn, func(_ *ssa.BasicBlock, _ int, in ssa.Instruction) {
+			st, ok := in.(*ssa.Store)
+			if !ok {
+				return
+			}
+			var field string
+			for f := range want {
+				if strings.HasSuffix(pathOf(st.Addr), f) {
+					field = f
+				}
+			}
+			if field == "" {
+				return
+			}
+			o := r.Add(rule, where, "parsed field"+field, c.pos(st.Pos()))
+			// the element the value comes from
+			src := st.Val
+			viaAtoi := false
+			if ex, ok := src.(*ssa.Extract); ok {
+				if call, ok := ex.Tuple.(*ssa.Call); ok && callName(&call.Call) == "strconv.Atoi" && ex.Index == 0 {
+					src = call.Call.Args[0]
+					viaAtoi = true
+				}
+			}
+			X, idx, isElem := loadOfIndex(src)
+			var split *ssa.Call
+			if isElem {
+				split, _ = X.(*ssa.Call)
+			}
+			if split == nil || !strings.HasPrefix(callName(&split.Call), "strings.Split") && callName(&split.Call) != "strings.Fields" {
+				if field == ".mid" {
+					o.Bad("the MID stored by the parser is not the field as it came off the wire (it is transformed: %s): the handler is asked about, and the statistics list, an identifier that was never proposed - e.g. a MID with lower-case letters", pathOf(st.Val))
+				} else {
+					o.Bad("could not trace the stored value to a field of the split proposal line (unresolved)")
+				}
+				return
+			}
+			if (field == ".size" || field == ".compressedSize") != viaAtoi {
+				o.Bad("field%s is not parsed the way its type requires", field)
+				return
+			}
+			// which field: constant index, or the range index under a dominating `i == k`
+			k, isC := constInt(idx)
+			if !isC {
+				for _, cd := range condsAt(st.Block()) {
+					b, ok := cd.V.(*ssa.BinOp)
+					if ok && b.Op == token.EQL && cd.Truth && b.X == idx {
+						if kk, ok := constInt(b.Y); ok {
+							k, isC = kk, true
+						}
+					}
+				}
+			}
+			switch {
+			case !isC:
+				o.Bad("could not determine which field of the line is stored (unresolved)")
+			case k != want[field]:
+				o.Bad("field %d of the proposal line is stored as%s, the writer (and the protocol) put it at position %d", k, field, want[field])
+			default:
+				o.OK("field %d, %s", k, map[bool]string{true: "parsed as decimal", false: "stored verbatim"}[viaAtoi])
+			}
+		})
+	}
+	// ---- writer
+	if fn := c.Func("fbb", "(*Session).sendOutbound"); fn == nil {
+		r.Fail(rule, "anchor sendOutbound not found")
+	} else {
+		for _, ci := range callsTo(fn, false, "fmt.Sprintf") {
+			s, ok := constString(ci.Common().Args[0])
+			if !ok || !strings.HasPrefix(s, "F%c") {
+				continue
+			}
+			o := r.Add(rule, fnName(fn), "proposal line arguments", c.pos(ci.Pos()))
+			args, ok := variadicArgs(ci.Common().Args[1])
+			if !ok || len(args) < 5 {
+				o.Bad("could not read the arguments of the proposal line (unresolved)")
+				continue
+			}
+			bad := ""
+			for f, k := range want {
+				a := args[k+1]
+				if mi, ok := a.(*ssa.MakeInterface); ok {
+					a = mi.X
+				}
+				suffix := f
+				okArg := dependsOn(a, func(x ssa.Value) bool {
+					if ld, ok := x.(*ssa.UnOp); ok && ld.Op == token.MUL && strings.HasSuffix(pathOf(ld), suffix) {
+						return true
+					}
+					if call, ok := x.(*ssa.Call); ok && suffix == ".mid" && callName(&call.Call) == "fbb.Proposal.MID" {
+						return true
+					}
+					return false
+				})
+				if !okArg {
+					bad += fmt.Sprintf(" argument %d is not Proposal%s;", k+1, f)
+				}
+			}
+			if bad == "" {
+				o.OK("code, type, MID, size, compressed size - in the order the parser reads them")
+			} else {
+				o.Bad("the proposal line is written in a different field order than it is parsed:%s", bad)
+			}
+		}
 	}
 }
